@@ -321,6 +321,11 @@ Record encoder := mkEnc {
   e_output_charset : N;                (* 0 = WBXML_CHARSET_UNKNOWN *)
   e_flow_mode : bool;
   e_pre_last_node_len : N;
+  e_pre_last_tagCodePage : N;          (* the five fields below: state saved before the last node, for delete_last_node (D16 repair) *)
+  e_pre_last_attrCodePage : N;
+  e_pre_last_indent : N;
+  e_pre_last_in_content : bool;
+  e_pre_last_tag : option (N * N);
   e_textual_publicid : bool
 }.
 
@@ -333,7 +338,8 @@ Definition encoder_class : list (string * fclass) := [
   ("in_cdata", RunState); ("cdata", RunState); ("strstbl", RunState); ("strstbl_len", RunState);
   ("use_strtbl", Setting); ("xml_encode_header", Setting); ("produce_anonymous", Setting);
   ("wbxml_version", Setting); ("output_charset", Setting); ("flow_mode", Setting);
-  ("pre_last_node_len", RunState); ("textual_publicid", Setting)]%string.
+  ("pre_last_node_len", RunState); ("pre_last_tagCodePage", RunState); ("pre_last_attrCodePage", RunState);
+  ("pre_last_indent", RunState); ("pre_last_in_content", RunState); ("pre_last_tag", RunState); ("textual_publicid", Setting)]%string.
 
 (* who may assign a setting.  encoder_duplicate assigns fields of the NEW object it has just created (nested
    trees); encoder_encode_tree and wbxml_encoder_encode_tree are the run functions that store values derived from
@@ -383,7 +389,8 @@ Definition enc_create : encoder := {|
   e_xml_encode_header := true; e_produce_anonymous := false;
   e_wbxml_version := 3;
   e_output_charset := 0;
-  e_flow_mode := false; e_pre_last_node_len := 0; e_textual_publicid := false |}.
+  e_flow_mode := false; e_pre_last_node_len := 0; e_pre_last_tagCodePage := 0; e_pre_last_attrCodePage := 0;
+  e_pre_last_indent := 0; e_pre_last_in_content := false; e_pre_last_tag := None; e_textual_publicid := false |}.
 
 (* wbxml_encoder_reset — THE CODE AS IT IS: every field either assigned or kept *)
 Definition enc_reset (e : encoder) : encoder := {|
@@ -415,6 +422,11 @@ Definition enc_reset (e : encoder) : encoder := {|
   e_output_charset := e_output_charset e;
   e_flow_mode := e_flow_mode e;
   e_pre_last_node_len := 0;
+  e_pre_last_tagCodePage := 0;
+  e_pre_last_attrCodePage := 0;
+  e_pre_last_indent := 0;
+  e_pre_last_in_content := false;
+  e_pre_last_tag := None;
   e_textual_publicid := e_textual_publicid e |}.
 
 (* the repaired reset (props/C15/DEFECTS.md): the list is emptied / recreated, indent and current_text_parent cleared *)
@@ -424,7 +436,8 @@ Definition enc_reset_fixed (e : encoder) : encoder :=
     (e_current_node r) (e_tagCodePage r) (e_attrCodePage r) (e_ignore_empty_text r) (e_remove_text_blanks r)
     (e_output_type r) (e_xml_gen_type r) (e_indent_delta r) 0 (e_in_content r) (e_in_cdata r) (e_cdata r)
     (Some []) (e_strstbl_len r) (e_use_strtbl r) (e_xml_encode_header r) (e_produce_anonymous r)
-    (e_wbxml_version r) (e_output_charset r) (e_flow_mode r) (e_pre_last_node_len r) (e_textual_publicid r).
+    (e_wbxml_version r) (e_output_charset r) (e_flow_mode r) (e_pre_last_node_len r) (e_pre_last_tagCodePage r)
+    (e_pre_last_attrCodePage r) (e_pre_last_indent r) (e_pre_last_in_content r) (e_pre_last_tag r) (e_textual_publicid r).
 
 Record esettings := mkES {
   es_lang : option N; es_ignore_empty_text : bool; es_remove_text_blanks : bool; es_output_type : N;
@@ -435,7 +448,9 @@ Record erun := mkER {
   er_tree : N; er_output : option (list N); er_output_header : option (list N); er_current_tag : option (N * N);
   er_current_text_parent : N; er_current_attr : N; er_current_node : N; er_tagCodePage : N; er_attrCodePage : N;
   er_indent : N; er_in_content : bool; er_in_cdata : bool; er_cdata : option (list N);
-  er_strstbl : option (list N); er_strstbl_len : N; er_pre_last_node_len : N }.
+  er_strstbl : option (list N); er_strstbl_len : N; er_pre_last_node_len : N;
+  er_pre_last_tagCodePage : N; er_pre_last_attrCodePage : N; er_pre_last_indent : N; er_pre_last_in_content : bool;
+  er_pre_last_tag : option (N * N) }.
 
 Definition e_settings (e : encoder) : esettings :=
   mkES (e_lang e) (e_ignore_empty_text e) (e_remove_text_blanks e) (e_output_type e) (e_xml_gen_type e)
@@ -444,14 +459,16 @@ Definition e_settings (e : encoder) : esettings :=
 Definition e_runstate (e : encoder) : erun :=
   mkER (e_tree e) (e_output e) (e_output_header e) (e_current_tag e) (e_current_text_parent e) (e_current_attr e)
     (e_current_node e) (e_tagCodePage e) (e_attrCodePage e) (e_indent e) (e_in_content e) (e_in_cdata e) (e_cdata e)
-    (e_strstbl e) (e_strstbl_len e) (e_pre_last_node_len e).
+    (e_strstbl e) (e_strstbl_len e) (e_pre_last_node_len e) (e_pre_last_tagCodePage e) (e_pre_last_attrCodePage e)
+    (e_pre_last_indent e) (e_pre_last_in_content e) (e_pre_last_tag e).
 Definition e_make (s : esettings) (r : erun) : encoder :=
   mkEnc (er_tree r) (es_lang s) (er_output r) (er_output_header r) (er_current_tag r) (er_current_text_parent r)
     (er_current_attr r) (er_current_node r) (er_tagCodePage r) (er_attrCodePage r) (es_ignore_empty_text s)
     (es_remove_text_blanks s) (es_output_type s) (es_xml_gen_type s) (es_indent_delta s) (er_indent r)
     (er_in_content r) (er_in_cdata r) (er_cdata r) (er_strstbl r) (er_strstbl_len r) (es_use_strtbl s)
     (es_xml_encode_header s) (es_produce_anonymous s) (es_wbxml_version s) (es_output_charset s) (es_flow_mode s)
-    (er_pre_last_node_len r) (es_textual_publicid s).
+    (er_pre_last_node_len r) (er_pre_last_tagCodePage r) (er_pre_last_attrCodePage r) (er_pre_last_indent r)
+    (er_pre_last_in_content r) (er_pre_last_tag r) (es_textual_publicid s).
 (* the run-state a newly created encoder has *)
 Definition erun_init : erun := e_runstate enc_create.
 (* a newly created encoder carrying the caller's settings *)
@@ -505,7 +522,8 @@ Definition enc_derive (s : esettings) (t_lang : option N) (t_charset : N) : eset
 Definition er_set_tree (r : erun) (id : N) : erun :=
   mkER id (er_output r) (er_output_header r) (er_current_tag r) (er_current_text_parent r) (er_current_attr r)
     (er_current_node r) (er_tagCodePage r) (er_attrCodePage r) (er_indent r) (er_in_content r) (er_in_cdata r)
-    (er_cdata r) (er_strstbl r) (er_strstbl_len r) (er_pre_last_node_len r).
+    (er_cdata r) (er_strstbl r) (er_strstbl_len r) (er_pre_last_node_len r) (er_pre_last_tagCodePage r)
+    (er_pre_last_attrCodePage r) (er_pre_last_indent r) (er_pre_last_in_content r) (er_pre_last_tag r).
 
 Inductive eop (tree : Type) := ESet (o : eset) | ERunReset (t : tree) (out_type : N).
 Arguments ESet {tree} o.
